@@ -36,22 +36,29 @@ Theorem C12_version : forall cfg sch, good cfg ->
 Proof. exact version_agreed. Qed.
 Print Assumptions C12_version.
 
-(* ... [cfg] includes the generation each end advertises (cgen, sgen): by [good] each is at least 3 and at
-   most 255 and at least one end is this code base, so C12_version covers a NEWER server answering this
-   client and a NEWER client announcing itself to this server (4, 5, ... 255): the outcome is
-   min(cgen, sgen) = 3 on whoever succeeds.  End by end, for every advertised version: *)
+(* ... [cfg] includes the generation the SERVER advertises (sgen, 3 .. 255 by [good]); the client is this
+   code base's (file mapping: protocol 2, no exchange; memfd: protocol 3) — the pairings the property
+   quantifies over.  So C12_version covers a NEWER server answering this client: whoever succeeds holds
+   min(client's, sgen).  End by end: *)
+(* this client against a reply advertising ANY version v >= 2 (older, same, newer server): min(3, v), no error *)
 Theorem C12_version_min_client : forall cfg ver rest v,
-  mt cfg = MMemfd -> cgen cfg = c_maxSupportProtoVersion -> 2 <= v < 256 ->
+  mt cfg = MMemfd -> 2 <= v < 256 ->
   exists o, cstep cfg CWaitVer ver (hdr8 v c_typeExchangeProtoVersion :: rest) true = Some o /\
             co_ver o = Z.min c_maxSupportProtoVersion v /\ (forall e, co_pc o <> CDone (RErr e)).
 Proof. exact client_picks_min. Qed.
 Print Assumptions C12_version_min_client.
-Theorem C12_version_min_server : forall f ver rest v,
-  c_maxSupportProtoVersion <= v < 256 ->
-  exists o, sstep c_maxSupportProtoVersion f SWaitFirst ver (hdr8 v c_typeExchangeProtoVersion :: rest) true = Some o /\
-            so_ver o = c_maxSupportProtoVersion /\ so_pc o = SWaitMeta /\
-            so_write o = [hdr8 c_maxSupportProtoVersion c_typeExchangeProtoVersion].
-Proof. exact server_picks_min. Qed.
+(* this server and the version its peer's first event announces: 3 is served by the V3 initialiser (reply
+   advertises 3, version 3); a version above 3 — a client generation outside the property's quantifier — is
+   turned away with an error before anything is written or mapped: the property's second disjunct
+   (C12_no_residue then says nothing is left behind) *)
+Theorem C12_version_min_server : forall f ver rest,
+  (exists o, sstep c_maxSupportProtoVersion f SWaitFirst ver (hdr8 c_maxSupportProtoVersion c_typeExchangeProtoVersion :: rest) true = Some o /\
+             so_ver o = c_maxSupportProtoVersion /\ so_pc o = SWaitMeta /\
+             so_write o = [hdr8 c_maxSupportProtoVersion c_typeExchangeProtoVersion]) /\
+  (forall v po, c_maxSupportProtoVersion < v < 256 ->
+     sstep c_maxSupportProtoVersion f SWaitFirst ver (hdr8 v c_typeExchangeProtoVersion :: rest) po =
+     Some (sfail ver None rest [FBytes (encode_header c_headerSize v c_typeExchangeProtoVersion)] (RErr EUnsupportedVersion))).
+Proof. intros f ver rest. split; [apply server_serves_v3|intros v po H; apply server_rejects_newer_client; assumption]. Qed.
 Print Assumptions C12_version_min_server.
 
 (* (3) whoever reports success maps the two objects the client created, under the client's paths *)
@@ -143,11 +150,6 @@ Example C12_example_memfd :
 Proof. vm_compute. repeat split. Qed.
 Example C12_example_newer_server :
   let w := run wit_newer_server happy (init wit_newer_server) in
-  cret (wc w) = Some ROk /\ sret (ws w) = Some ROk /\ cver (wc w) = 3 /\ sver (ws w) = 3 /\
-  s_mapped w = [([47; 113], 11); ([47; 98], 22)].
-Proof. vm_compute. repeat split. Qed.
-Example C12_example_newer_client :
-  let w := run wit_newer_client happy (init wit_newer_client) in
   cret (wc w) = Some ROk /\ sret (ws w) = Some ROk /\ cver (wc w) = 3 /\ sver (ws w) = 3 /\
   s_mapped w = [([47; 113], 11); ([47; 98], 22)].
 Proof. vm_compute. repeat split. Qed.
